@@ -92,12 +92,17 @@ def scrape(repo):
                                 depth -= 1
                         i += 1
                     ex = body[em.end():i - 1]
-                    e = {"arguments": [unrust(a) for a in re.findall(r'\.add_argument\(\s*' + STR + r'\s*,?\s*\)', ex)]}
-                    im = re.search(r'\.input\(\s*' + STR + r'\s*,?\s*\)', ex)
+                    e = {"arguments": []}
+                    for am in re.finditer(r'\.add_argument\(\s*(?:r#"(.*?)"#|' + STR + r')\s*,?\s*\)', ex, re.S):
+                        e["arguments"].append(am.group(1) if am.group(1) is not None else unrust(am.group(2)))
+                    im = re.search(r'\.input\(\s*(?:r#"(.*?)"#|' + STR + r')\s*,?\s*\)', ex, re.S)
                     if im:
-                        e["input"] = unrust(im.group(1))
+                        e["input"] = im.group(1) if im.group(1) is not None else unrust(im.group(2))
                     om = re.search(r'\.expected_output\(\s*' + STR + r'\s*,?\s*\)', ex)
-                    if om:
+                    rm = re.search(r'\.expected_output\(\s*r#"(.*?)"#\s*,?\s*\)', ex, re.S)
+                    if rm:
+                        e["expected_output"] = rm.group(1)
+                    elif om:
                         e["expected_output"] = unrust(om.group(1))
                     elif ".validate_output(" in ex or ".expected_json(" in ex:
                         e["custom"] = True
